@@ -136,7 +136,7 @@ class Ctx:
 
     # -- finish --------------------------------------------------------
     def finish(self) -> int:
-        EVID.mkdir(exist_ok=True)
+        EVID.mkdir(parents=True, exist_ok=True)
         rc = 0
         vio_paths = []
         if self.violations:
